@@ -127,6 +127,13 @@ func buildCalls(seed uint64, env *psEnv) []callSpec {
 			return sha(buf.Bytes()) + fmt.Sprintf("/%v", err)
 		})
 	}
+	// one options value shared by every call and goroutine, left at its documented default
+	sharedOpts := &type1.WriterOptions{}
+	add("Font.Write/shared-default-options", func() string {
+		var buf bytes.Buffer
+		err := font.Write(&buf, sharedOpts)
+		return sha(buf.Bytes()) + fmt.Sprintf("/%v/%+v", err, *sharedOpts)
+	})
 	add("Font.WritePDF", func() string {
 		var buf bytes.Buffer
 		l1, l2, err := font.WritePDF(&buf)
@@ -421,6 +428,7 @@ func c18ColdStart(seed, run uint64) {
 		metrics.Encoding[i] = ".notdef"
 	}
 	metrics.Encoding[65], metrics.Encoding[66] = "A", "B"
+	coldOpts := &type1.WriterOptions{} // shared by all goroutines, left at the default
 	ps := func(prog string) func() string {
 		return func() string {
 			intp := postscript.NewInterpreter()
@@ -461,6 +469,15 @@ func c18ColdStart(seed, run uint64) {
 		},
 		func() string {
 			return fmt.Sprint(names.ToUnicode("A", false), names.ToUnicode("dalethatafpatah", false))
+		},
+		func() string { return fmt.Sprint(names.ToUnicode("lamedholamdagesh", false)) },
+		func() string {
+			return fmt.Sprint(names.ToUnicode("a7", false), names.ToUnicode("a7", true), names.ToUnicode("a7", false))
+		},
+		func() string {
+			var buf bytes.Buffer
+			err := font.Write(&buf, coldOpts)
+			return fmt.Sprintf("%s %v %+v", sha(buf.Bytes()), err, *coldOpts)
 		},
 		func() string { return fmt.Sprint(names.ToUnicode("a100", true)) },
 		func() string { return names.FromUnicode('A') + names.FromUnicode(0x20AC) + names.FromUnicode(0xFB01) },
